@@ -21,3 +21,6 @@ import Props.C18
 #print axioms SpyneModel.Props.C18.out_bare_first_breaks_null
 #print axioms SpyneModel.Props.C18.class_name_breaks_wire
 #print axioms SpyneModel.Props.C18.empty_object_breaks_wire
+#print axioms SpyneModel.Props.C18.declared_return_delivered
+#print axioms SpyneModel.Props.C18.members_only_breaks_null
+#print axioms SpyneModel.Props.C18.wrapper_only_breaks_null
